@@ -87,6 +87,7 @@ var c16Templates = []c16Template{
 	{"QF1002a", "QF1002", []string{"int", "int"}, `switch {;; case $0 == 1: ret = 1;; case $0 == 3 || $0 == $1: ret = 2;; default: ret = 3 }`},
 	{"QF1002b", "QF1002", []string{"int"}, `switch {;; case $0 == 1: ret = 1;; case $0 == 1: ret = 2 }`},
 	{"QF1003a", "QF1003", []string{"int", "int"}, `if $0 == 1 { ret = 1 } else if $0 == 3 || $0 == $1 { ret = 2 } else { ret = 3 }`},
+	{"QF1003b", "QF1003", []string{"int"}, `if $0 == 1 { ret = 1 } else if $0 == 1 { ret = 2 }`},
 	{"QF1004a", "QF1004", []string{"str", "str"}, `ret = strings.Replace($0, $1, "z", -1)`},
 	{"QF1006a", "QF1006", []string{"bool"}, `i := 0;; for {;; if $0 { break };; i++;; if i > 2 { break };; };; ret = i`},
 	{"QF1006b", "QF1006", []string{"int", "int"}, `i := 0;; for {;; if i+$0 > $1 { break };; i++;; if i > 2 { break };; };; ret = i`},
@@ -94,6 +95,7 @@ var c16Templates = []c16Template{
 	{"QF1007a", "QF1007", []string{"bool"}, `x := true;; if $0 { x = false };; ret = x`},
 	{"QF1007b", "QF1007", []string{"bool"}, `x := false;; if $0 { x = true };; ret = x`},
 	{"QF1008a", "QF1008", []string{"int"}, `type In struct{ V int };; type Out struct{ In };; o := Out{In{$0}};; ret = o.In.V`},
+	{"QF1011a", "QF1011", []string{"int"}, `var x int = $0;; ret = x`},
 	{"QF1012a", "QF1012", []string{"int", "str"}, `var sb strings.Builder;; sb.WriteString(fmt.Sprintf("%d-%s", $0, $1));; ret = sb.String()`},
 	{"QF1012b", "QF1012", []string{"int"}, `var buf bytes.Buffer;; buf.Write([]byte(fmt.Sprint($0)));; ret = buf.String()`},
 }
@@ -192,8 +194,8 @@ func c16FixChecks() []string {
 					continue
 				}
 				b, _ := os.ReadFile(f)
-				if bytes.Contains(b, []byte("report.Fixes(")) {
-					has = true
+				if bytes.Contains(b, []byte("report.Fixes(")) || bytes.Contains(b, []byte("sharedcheck.RedundantTypeInDeclarationChecker(")) {
+					has = true // the shared checker attaches a fix (internal/sharedcheck)
 				}
 			}
 			if has {
